@@ -119,6 +119,29 @@ fn execute_put_always(pat: String) -> FaultOutcome {
         ));
         return out;
     }
+    if pat == "nun.metadata" {
+        // only the metadata object cannot be stored: whatever else of the database reached the store, a restart now
+        // brings the database back as itself (identifier, strategy) or not at all
+        let before = crate::kv::db_meta(&dbs, "d");
+        w.kill(0);
+        sleep_ms(10);
+        w.boot(0, "");
+        if !w.wait_primary(0, 5_000) {
+            // failing loudly is allowed
+            return out;
+        }
+        if let Some(d2) = w.dbs(0) {
+            let after = crate::kv::db_meta(&d2, "d");
+            if after.is_some() && after != before {
+                out.violations.push(Violation::new(
+                    "metadata-changed",
+                    format!("{}:metadata-upload-failed", st),
+                    format!("the metadata object of d could not be stored; after a restart d is back with (id, strategy) {:?}, it had {:?}", after, before),
+                ));
+            }
+        }
+        return out;
+    }
     // the store recovers: if the node is able to snapshot again, the data must be there after a restart
     {
         let s = s3stub::store();
@@ -196,7 +219,7 @@ impl Property for C18 {
                 let pat = pats[rng.below(pats.len() as u64) as usize].to_string();
                 let fault = match scenario {
                     "put-fails-once" => Fault::PutFailsOnce { pat, attempt: rng.range(1, 3) as u32 },
-                    "put-fails-always" => Fault::PutFailsAlways { pat: "d/".into() },
+                    "put-fails-always" => Fault::PutFailsAlways { pat: if rng.chance(1, 2) { "d/".into() } else { "nun.metadata".into() } },
                     "get-fails-once" => Fault::GetFailsOnce { pat },
                     "put-fails-first" => Fault::PutFailsFirst { pat, n: rng.range(3, 5) as u32 },
                     "get-fails-always" => Fault::GetFailsAlways { pat: ["nun.metadata", ".nun", "nun.keys", "/"][rng.below(4) as usize].to_string() },
